@@ -531,13 +531,21 @@ def _ki_cut(fn):
 
 
 def _ki_cut0(fn):
-    """index of the first statement after the parsing block, i.e. after `packet.check_end()`"""
+    """index of the first statement after the parsing block.  The parsing block is the prefix of the body that ends
+    with the LAST top-level statement reading the packet (`x = packet.get_*()` / `packet.check_end()`) before the
+    negotiation starts - on the pinned tree that is `packet.check_end()`.  If the end check is removed, moved into a
+    branch or made conditional, the cut still exists and [parse] then FAILS its packet-consumed-completely clause
+    (a violation, not a checker problem)."""
     import ast
-    for i, st_ in enumerate(fn.body):
-        if isinstance(st_, ast.Expr) and isinstance(st_.value, ast.Call) and \
-                ast.unparse(st_.value.func) == 'packet.check_end':
-            return i + 1
-    raise Unsupported('_process_kexinit: no packet.check_end() statement (cut point of the region contracts)')
+    last = None
+    for i, st_ in enumerate(fn.body[:_ki_cut(fn)]):
+        if isinstance(st_, (ast.Expr, ast.Assign)) and isinstance(st_.value, ast.Call) and \
+                ast.unparse(st_.value.func).startswith('packet.'):
+            last = i
+    if last is None:
+        # nothing reads the packet at top level any more: [parse] is empty and fails every clause, [record] is all
+        return 0
+    return last + 1
 
 
 # _process_kexinit is verified in three parts (sequential composition; the mid-conditions are proved, not assumed):
@@ -1439,7 +1447,7 @@ rsa_process_done.no_replay = True
 # KEXRSA_PUBKEY (client) / KEXRSA_SECRET (server): role checks, the hashed items K_S, K_T, enc(K) are the wire
 # fields, complete consumption, and what goes out is consistent with what is hashed
 RSA2_FIELDS = dict(RSA_FIELDS, _k_limit='int', algorithm='bytes', _trans_key='opt[obj:RSAKey]')
-RSA2_CLASSES = dict(RSA_CLASSES, _KexRSA=RSA2_FIELDS, RSAKey={})
+RSA2_CLASSES = dict(RSA_CLASSES, _KexRSA=RSA2_FIELDS, RSAKey={'public_data': 'bytes'})
 RSA_HASHED = ['_host_key_data', '_trans_key_data', '_encrypted_k', '_k']
 
 
@@ -1635,7 +1643,7 @@ def _total(fn):
     def wrapped(c):
         try:
             return fn(c)
-        except (IndexError, KeyError, AttributeError, TypeError):
+        except (IndexError, KeyError, AttributeError, TypeError, z3.Z3Exception):
             return z3.BoolVal(False)
     wrapped.__name__ = getattr(fn, '__name__', 'clause')
     return wrapped
